@@ -15,6 +15,7 @@ fn main() {
     cfgs6::add(&mut cfgs);
     cfgs7::add(&mut cfgs);
     cfgs8::add(&mut cfgs);
+    cfgw::add(&mut cfgs);
     let reg = sut::Registry { cfgs, zeroize: sut::ZEROIZE, sweep: true };
     std::process::exit(checks::main_with(reg, "mc-zfull"));
 }
